@@ -26,8 +26,9 @@ class C07(Prop):
     def shards(self, tier, seed):
         if tier == "quick":
             return [["--seed", str(seed), "--n", "250"] for _ in range(8)]
-        rnd = [["--seed", str(seed), "--n", "2500"] for _ in range(NCPU)]
-        return rnd
+        rnd = [["--seed", str(seed), "--n", "2000"] for _ in range(NCPU)]
+        exh = [["--seed", str(seed), "--mode", "exhaustive/%d/%d" % (2 * NCPU, k)] for k in range(2 * NCPU)]
+        return rnd + exh
 
     def extra_runs(self, tier, seed):
         return []
